@@ -242,7 +242,7 @@ class _Expander:
             if not defs:
                 return mark("undef", ast.Constant(e.id))
             if not self.phi and (len(defs) > 1 or defs[0].kind in ("aug", "with", "except", "def", "import", "global")):
-                if self.ssa:
+                if self.ssa and not (len(defs) == 1 and defs[0].kind in ("def", "import", "global")):
                     return ast.Name(id=e.id + "#" + "_".join(str(d.nid) for d in defs), ctx=ast.Load())
                 return ast.Name(id=e.id, ctx=ast.Load())
             if depth <= 0:
